@@ -43,7 +43,7 @@ DEVIATIONS = []  # native results that contradict the specification (reported, n
 
 
 def native_deviation(res, o, lang):
-    if "Err" in res and res["Err"]["variant"] == "OutsideNaturalBounds":
+    if "Err" in res and res["Err"]["variant"] == "OutsideNaturalBounds" and o[-1] != "expModInteger":
         return "constrData with a tag outside 0..2^64-1 fails natively (specification: any integer)"
     if lang == "v2" and "Ok" in res and o[0] == "error" and o[2] in ("shiftByteString", "rotateByteString"):
         return "shift/rotateByteString by an amount outside Int64 succeeds natively under v1/v2 semantics (fails under v3)"
